@@ -55,10 +55,18 @@ def run_topo(ctx, n_cases=None):
         # ---- topological_sort
         cap = 4 * spec["n"] + 8          # the generator must stop by itself (C07); never iterate it unbounded
         try:
-            order = list(itertools.islice(nu.topological_sort(g), cap))
+            if core.HANGS[0] > 4 and not acyclic:
+                continue
+            order = core.call_watched(lambda: list(itertools.islice(nu.topological_sort(g), cap)))
             impl = [0] + order
         except nx.HasACycle:
             order, impl = None, [1]
+        except core.Hang:
+            if core.HANGS[0] > 4:
+                continue
+            ctx.fail("topological_sort:hangs", "topological_sort does not return on this graph (neither an order nor HasACycle within the time limit)", replay)
+            add("exec_kahn %s %s" % (cns, ces), "topological_sort", "kahn", [8], replay)
+            continue
         except Exception as e:  # anything else is outside the model's enum
             order, impl = None, [9, type(e).__name__]
         if order is not None and len(order) >= cap:
